@@ -129,6 +129,9 @@ pub struct Case {
     pub adv_map: BTreeMap<[u64; 4], Vec<u64>>,
     /// merkle trees to load into the store: list of leaves per tree (power of two)
     pub trees: Vec<Vec<[u64; 4]>>,
+    /// sparse Merkle tree (key, value) entries: the tree's nodes go into the store and its leaves
+    /// into the advice map, the way the standard library's SMT procedures expect them
+    pub smt: Option<Vec<([u64; 4], [u64; 4])>>,
 }
 
 impl Case {
@@ -142,6 +145,7 @@ impl Case {
             "advice_stack": self.adv,
             "advice_map": self.adv_map.iter().map(|(k, v)| (k.to_vec(), v.clone())).collect::<Vec<_>>(),
             "trees": self.trees.iter().map(|t| t.iter().map(|w| w.to_vec()).collect::<Vec<_>>()).collect::<Vec<_>>(),
+            "smt": self.smt.as_ref().map(|e| e.iter().map(|(k, v)| vec![k.to_vec(), v.to_vec()]).collect::<Vec<_>>()),
         })
     }
     pub fn from_json(v: &serde_json::Value) -> Self {
@@ -174,6 +178,7 @@ impl Case {
                 .as_array()
                 .map(|a| a.iter().map(|t| t.as_array().unwrap().iter().map(|w| w4(w)).collect()).collect())
                 .unwrap_or_default(),
+            smt: v["smt"].as_array().map(|a| a.iter().map(|e| (w4(&e[0]), w4(&e[1]))).collect()),
         }
     }
 
@@ -191,10 +196,23 @@ impl Case {
                 store.extend(mt.inner_nodes());
             }
         }
-        let map = self.adv_map.iter().map(|(k, v)| {
-            let key: vm_core::Word = k.map(Felt::new);
-            (key.into(), v.iter().map(|x| Felt::new(*x)).collect::<Vec<_>>())
-        });
+        let mut map: Vec<(vm_core::crypto::hash::RpoDigest, Vec<Felt>)> = self
+            .adv_map
+            .iter()
+            .map(|(k, v)| {
+                let key: vm_core::Word = k.map(Felt::new);
+                (key.into(), v.iter().map(|x| Felt::new(*x)).collect::<Vec<_>>())
+            })
+            .collect();
+        if let Some(entries) = &self.smt {
+            use vm_core::crypto::merkle::Smt;
+            let smt = Smt::with_entries(entries.iter().map(|(k, v)| (k.map(Felt::new).into(), v.map(Felt::new)))).expect("distinct keys");
+            let s2: MerkleStore = MerkleStore::from(&smt);
+            store.extend(s2.inner_nodes());
+            for (_, leaf) in smt.leaves() {
+                map.push((leaf.hash(), leaf.to_elements()));
+            }
+        }
         AdviceInputs::default()
             .with_stack(self.adv.iter().map(|v| Felt::new(*v)))
             .with_map(map)
